@@ -357,7 +357,7 @@ contract(OB + "bin_count_and_last_empty:BinCountAndLastEmpty.upper_bound", props
 # smallest item area of the instance matrix (rows 0..k-1)
 spec("minarea(inst, k)", "inst[0, 0] * inst[0, 1] if k <= 1 else min(minarea(inst, k - 1), inst[k - 1, 0] * inst[k - 1, 1])",
      ptypes=["arr2", "int"])
-contract(OB + "bin_count_and_last_small:BinCountAndLastSmall.lower_bound", props="C02", params={},
+contract(OB + "bin_count_and_last_small:BinCountAndLastSmall.lower_bound", props="C02", params={}, npscalars=True,
          ghosts={"L": PYINT, "TA": PYINT, "W": PYINT, "H": PYINT, "inst": A2("I", cols=3)}, i64=False, returns=PYINT,
          attrs=dict(_IA, **{"self._instance": "inst"}),
          requires=["shape(inst, 0) >= 1", "forall(r, 0, shape(inst, 0), inst[r, 0] >= 1 and inst[r, 1] >= 1)", "L >= 1"],
